@@ -14,7 +14,7 @@ def WF(c, skip=()):
         "rel_section": forest.rel_section(c),
         "rel_symbol": forest.rel_symbol(c),
         "rel_proxy": forest.rel_proxy(c),
-        "rel_module": forest.rel_module(c),
+        **forest.rel_module_parts(c),
         "wrappers_owned": forest.wrappers_owned(c),
         "lit_wiring": z3.And(forest.wf_wiring(c), forest.wf_lit_owner(c)),
         "typed": forest.wf_typed(c),
@@ -47,13 +47,15 @@ def attach_ok(c, ir_val, v, cls):
 
 
 # --- assumption slicing for the conjuncts of WF (which facts the proof of each conjunct may use) -------------
+_RELM = ["rel_module_wiring", "rel_module_items", "rel_module_nodup", "rel_module_pos"]
 _EFFECT = ["view", "parent", "other_collections", "other_parents", "is_wrapper", "is_child", "parent_kinds",
            "subtree_shape_unchanged", "ir_of_unchanged_outside", "ir_of_subtree", "is_node", "stored",
            "subtree_same_ir", "root_ir", "parents", "target_ir_fixed", "elements_are_blocks", "not_pending",
-           "events_add_all", "field_name"]
+           "events_add_all", "field_name", "value_kind", "unlinked", "linked", "is_list", "other_lists",
+           "is_module", "list_effect"]
 _CACHE = ["wf_cache_I1", "wf_cache_I2", "uuids_typed", "uuids_distinct_where_attached", "subtree_registered",
           "old_entries_kept_or_overwritten_by_subtree", "new_entries_are_subtree", "exactly_subtree_removed",
-          "other_entries_unchanged", "rel_module", "rel_interval", "rel_block", "rel_section", "rel_symbol",
+          "other_entries_unchanged", *_RELM, "rel_interval", "rel_block", "rel_section", "rel_symbol",
           "rel_proxy"]
 _REGION = ["inv_region", "lit_wiring", "typed", "rel_block", "rel_interval", "queued", "denote_step"]
 FOCUS = {
@@ -64,7 +66,7 @@ FOCUS = {
     "rel_section": _EFFECT + ["rel_section", "rel_symbol", "rel_proxy"],
     "rel_symbol": _EFFECT + ["rel_section", "rel_symbol", "rel_proxy"],
     "rel_proxy": _EFFECT + ["rel_section", "rel_symbol", "rel_proxy"],
-    "rel_module": _EFFECT + ["rel_module"],
+    **{k: _EFFECT + _RELM for k in _RELM},
     "wrappers_owned": _EFFECT + ["wrappers_owned"],
     "lit_wiring": _EFFECT + ["lit_wiring"],
     "typed": _EFFECT + ["typed"],
@@ -82,10 +84,15 @@ def focus(clause):
         return FOCUS[clause]
     if clause in ("callpre.distinct_uuids_in_subtree", "callpre.subtree_registered"):
         return _EFFECT + _CACHE
+    if clause == "callpre.uuids_distinct_where_attached":
+        return _EFFECT + ["uuids_distinct_where_attached", "uuids_typed", "rel_block", "rel_interval", "rel_section",
+                          "rel_symbol", "rel_proxy", *_RELM]
+    if clause in ("subtree_shape_unchanged", "ir_of_unchanged_outside", "ir_of_subtree"):
+        return _EFFECT
     if clause in ("view", "parents", "parent", "other_collections", "other_parents", "target_ir_fixed"):
-        return _EFFECT + ["rel_block", "rel_interval", "rel_section", "rel_symbol", "rel_proxy", "rel_module",
+        return _EFFECT + ["rel_block", "rel_interval", "rel_section", "rel_symbol", "rel_proxy", *_RELM,
                           "wrappers_owned"]
     if clause.startswith("lemma."):
-        return _EFFECT + ["rel_block", "rel_interval", "rel_section", "rel_symbol", "rel_proxy", "rel_module",
+        return _EFFECT + ["rel_block", "rel_interval", "rel_section", "rel_symbol", "rel_proxy", *_RELM,
                           "wrappers_owned"]
     return None
